@@ -86,6 +86,10 @@ func UnifyGenericType(argType Type, paramType ParameterType, genericTypes map[st
 	if isParamStruct && paramStructType.genericType != nil && (!isArgStruct || argStructType.genericType == nil) {
 		return nil
 	} else if isParamStruct && paramStructType.genericType != nil {
+		// instantiations of different generic structs can never be unified
+		if paramStructType.genericType != argStructType.genericType {
+			return nil
+		}
 		typeParams := make([]Type, 0, len(paramStructType.instantiatedWith))
 		for i, paramTypParam := range paramStructType.instantiatedWith {
 			argTypParam := argStructType.instantiatedWith[i]
